@@ -6,13 +6,13 @@ from . import gen, table
 CLANG = "clang++-14"
 
 
-def compile_tu(workdir, tag, cpp_text, extra=()):
+def compile_tu(workdir, tag, cpp_text, extra=(), exceptions=False):
     os.makedirs(workdir, exist_ok=True)
     src = os.path.join(workdir, tag + ".cpp")
     bc = os.path.join(workdir, tag + ".bc")
     with open(src, "w") as f:
         f.write(cpp_text)
-    cmd = [CLANG, "-std=c++14", "-O0", "-g", "-fno-discard-value-names", "-fno-exceptions", "-ffp-contract=on", "-Xclang",
+    cmd = [CLANG, "-std=c++14", "-O0", "-g", "-fno-discard-value-names", "-fexceptions" if exceptions else "-fno-exceptions", "-ffp-contract=on", "-Xclang",
            "-disable-O0-optnone", "-w"] + MFLAGS + ["-include", os.path.join(VERIF, "extract", "shim.h"), "-I", os.path.join(REPO, "include"),
                                                   "-c", "-emit-llvm", src, "-o", bc] + list(extra)
     t0 = time.time()
